@@ -25,6 +25,16 @@ def _reject_tests(F, pred, exc=('StatechartError',)):
     return out
 
 
+def _isinstance_subjects(test):
+    """(subject text, class names, call node) of every isinstance(..) call inside a test"""
+    out = []
+    for n in ast.walk(test):
+        if isinstance(n, ast.Call) and isinstance(n.func, ast.Name) and n.func.id == 'isinstance' and len(n.args) == 2:
+            ks = [q.unparse(e) for e in n.args[1].elts] if isinstance(n.args[1], ast.Tuple) else [q.unparse(n.args[1])]
+            out.append((q.unparse(n.args[0]), ks, n))
+    return out
+
+
 def _txt(test):
     return q.unparse(test).replace(' ', '')
 
@@ -70,20 +80,51 @@ def rules_registration(run, P='C12', rid='.1'):
     for t in root:
         run.check(q.canon_atom(t.test) in (('truthy', 'self.root', '', True), ('is', 'self.root', 'None', False)), r, fi.short,
                   'a second root is rejected whenever a root exists', 'root test is %s' % q.unparse(t.test), t)
-    comp = _reject_tests(F, lambda t: 'CompositeStateMixin' in _txt(t) and _txt(t).startswith('notisinstance('))
-    for t in comp:
-        run.check([a for a in guard_atoms(t) if a[1] == pp] == [('truthy', pp, '')], r, fi.short, 'parent must be composite: tested on the with-parent path', 'under %s' % guard_atoms(t), t)
-        subj = _txt(t.test)[len('notisinstance('):].split(',')[0]
-        o = [q.unparse(x) for x in q.local_origin(F, ast.Name(id=subj, ctx=ast.Load()))]
-        run.check(any('state_for(%s)' % pp in x for x in o), r, fi.short, 'parent looked up with state_for(parent) (rejects unknown parents)', 'parent object comes from %s' % o, t)
+    # with a parent: rejected iff the parent is not composite, or the state is a history state and the parent is not a compound state - compared as
+    # a truth table over the three class tests, whatever the number and the shape of the rejecting if-statements
+    kind_tests = _reject_tests(F, lambda t: any(k in _txt(t) for k in ('CompositeStateMixin', 'CompoundState', 'HistoryStateMixin')))
+    with_parent = [t for t in kind_tests if ('truthy', pp, '') in guard_atoms(t)]
+    without_parent = [t for t in kind_tests if ('falsy', pp, '') in guard_atoms(t)]
+    subj_ok = True
+
+    def classify_k(op, l, r_, e):
+        txt = l.replace(' ', '')
+        if op == 'truthy' and txt.startswith('isinstance(') and txt.endswith(',CompositeStateMixin)'):
+            return 'COMPOSITE'
+        if op == 'truthy' and txt.startswith('isinstance(') and txt.endswith(',CompoundState)'):
+            return 'COMPOUND'
+        if op == 'truthy' and txt == 'isinstance(%s,HistoryStateMixin)' % sp:
+            return 'HIST'
+        return None
+    ba = q.BoolAbs(classify_k)
+    for t in with_parent:
+        ba.ev(t.test, {})
+    vs = list(ba.vars)
+    bad = []
+    for mask in range(1 << len(vs)):
+        val = {v: bool(mask >> i_ & 1) for i_, v in enumerate(vs)}
+        if val.get('COMPOUND') and not val.get('COMPOSITE', True):
+            continue      # a compound state is a composite state
+        got = any(ba.ev(t.test, val) for t in with_parent)
+        want_ = (not val.get('COMPOSITE', False)) or (val.get('HIST', False) and not val.get('COMPOUND', False))
+        if got != want_:
+            bad.append(val)
+    run.check(bool(with_parent) and not bad and set(vs) == {'COMPOSITE', 'COMPOUND', 'HIST'}, r, fi.short,
+              'with a parent: rejected iff the parent is not composite or a history state gets a non-compound parent', 'rejection condition differs (atoms %s, e.g. %s)' % (vs, bad[:1]), F)
+    comp = with_parent
+    for t in with_parent:
+        for subj, ks, node in _isinstance_subjects(t.test):
+            if subj != sp:
+                o = [q.unparse(x) for x in q.local_origin(F, ast.Name(id=subj, ctx=ast.Load()))] if subj.isidentifier() else [subj]
+                run.check(any('state_for(%s)' % pp in x for x in o), r, fi.short, 'parent looked up with state_for(parent) (rejects unknown parents)', 'parent object comes from %s' % o, t)
     cutcheck(root + comp, 'every path passes the single-root test or the composite-parent test', 'a second root, or a child of a non-composite state, can be registered')
-    hist = _reject_tests(F, lambda t: 'isinstance(%s,HistoryStateMixin)' % sp in _txt(t))
+    hist = [t for t in kind_tests if 'isinstance(%s,HistoryStateMixin)' % sp in _txt(t.test)]
     cutcheck(hist, 'history state needs a compound parent: tested on every path',
              'the no-parent branch reaches the registration without any test on HistoryStateMixin: a history state is accepted as root state')
-    for t in hist:
-        at = guard_atoms(t)
-        if ('truthy', pp, '') in at:
-            run.check('notisinstance(' in _txt(t.test) and 'CompoundState' in _txt(t.test), r, fi.short, 'with a parent: history requires a CompoundState parent', 'test is %s' % q.unparse(t.test), t)
+    for t in without_parent:
+        c_ = q.canon_atom(t.test)
+        run.check(c_ is not None and c_[0] == 'truthy' and c_[1].replace(' ', '') == 'isinstance(%s,HistoryStateMixin)' % sp and c_[3], r, fi.short,
+                  'without a parent: a history state is rejected', 'test is %s' % q.unparse(t.test), t)
     # co-registration
     wr = {(f, k) for c, f, k, n in prog.direct_writes(fi) if c == 'Statechart'}
     run.check({('_states', 'item-assign'), ('_parent', 'item-assign'), ('_children', 'item-assign'), ('_children', 'mut-elem:append')} <= wr, r, fi.short,
@@ -138,55 +179,81 @@ def rules_registration(run, P='C12', rid='.1'):
 
 def rules_validate(run, r):
     prog = run.prog
+
+    def table(fi, classify, spec, known, label, why):
+        V = fi.node
+        lp = [n for n in q.walk(V, False) if isinstance(n, ast.For)]
+        run.anchor(len(lp) == 1 and '_states' in q.unparse(lp[0].iter), r, 'loop over all states in ' + fi.short)
+        L = lp[0]
+        run.check(not any(isinstance(x, (ast.Break, ast.Return)) for x in ast.walk(L)), r, fi.short, 'every state is examined', 'the loop can stop early', L)
+        rz = [x for x in q.raises_in(V) if q.raised_class(x) == 'StatechartError']
+        run.check(len(rz) >= 1 and all(q.in_node(x, L) for x in rz), r, fi.short, 'rejections happen while the states are examined', 'no StatechartError raised in the loop', V)
+        ba = q.BoolAbs(classify)
+        dnfs = [q.reach_dnf(x, stop=L) for x in rz]
+        for d_ in dnfs:
+            for conj in d_:
+                for e_, pol in conj:
+                    ba.ev(e_, {})
+        vs = list(ba.vars)
+        bad = []
+        for mask in range(1 << len(vs)):
+            val = {v: bool(mask >> i_ & 1) for i_, v in enumerate(vs)}
+            got = any(q.dnf_holds(ba, d_, val) for d_ in dnfs)
+            if got != bool(spec(val)):
+                bad.append(val)
+        # (an atom the rule does not know is harmless exactly when the verdict never depends on it: it is enumerated like the others)
+        run.check(not bad and set(known) <= set(vs), r, fi.short, label, why + ' (atoms %s%s)' % (vs, ', e.g. %s' % bad[0] if bad else ''), V)
+        return L
     vi = run.fn('Statechart._validate_compoundstate_initial')
-    V = vi.node
-    lp = [n for n in q.walk(V, False) if isinstance(n, ast.For)]
-    run.anchor(len(lp) == 1 and '_states' in q.unparse(lp[0].iter), r, 'loop over all states in _validate_compoundstate_initial')
-    run.check(not any(isinstance(x, (ast.Break, ast.Return)) for x in ast.walk(lp[0])), r, vi.short,
-              'every state is examined', 'the loop can stop early', lp[0])
-    tv = [e.id for e in lp[0].target.elts] if isinstance(lp[0].target, ast.Tuple) else [None, lp[0].target.id]
+    L0 = [n for n in q.walk(vi.node, False) if isinstance(n, ast.For)]
+    run.anchor(len(L0) == 1, r, 'loop over all states in _validate_compoundstate_initial')
+    tv = [e.id for e in L0[0].target.elts] if isinstance(L0[0].target, ast.Tuple) else [None, L0[0].target.id]
     nm, sv = tv
-    rz = [x for x in q.raises_in(V) if q.raised_class(x) == 'StatechartError']
-    conds = [guard_atoms(x, stop=lp[0]) for x in rz]
-    exists = [c for c in conds if ('not in', sv + '.initial', 'self._states') in c]
-    child = [c for c in conds if any(a[0] == 'not in' and a[1] == sv + '.initial' and 'children_for' in a[2] for a in c)]
-    run.check(len(exists) >= 1, r, vi.short, 'initial must exist', 'missing test', V)
-    run.check(len(child) >= 1, r, vi.short, 'initial must be a direct child', 'missing test', V)
-    for c in child:
-        a = [a for a in c if a[0] == 'not in' and 'children_for' in a[2]][0]
-        run.check(a[2].replace(' ', '') in ('self.children_for(%s)' % nm, 'self.children_for(%s.name)' % sv, 'self._children[%s]' % nm), r, vi.short,
-                  'children of the compound state itself', 'compared with %s' % a[2], V)
-    for c in exists + child:
-        extra = [a for a in c if not (a[0] == 'truthy' and ('isinstance(%s, CompoundState)' % sv) in a[1]) and a != ('truthy', sv + '.initial', '')
-                 and not (a[0] in ('in', 'not in') and a[1] == sv + '.initial')]
-        run.check(not extra, r, vi.short, 'initial tests apply to every compound state with an initial', 'tests conditional on %s' % extra, V)
+
+    def classify_i(op, l, r_, e):
+        l0, r0 = l.replace(' ', ''), r_.replace(' ', '')
+        if op == 'truthy' and l0 == 'isinstance(%s,CompoundState)' % sv:
+            return 'COMPOUND'
+        if op == 'truthy' and l0 == sv + '.initial':
+            return 'HAS_INITIAL'
+        if op == 'is' and l0 == sv + '.initial' and r0 == 'None':
+            return ('HAS_INITIAL', False)
+        if op == 'in' and l0 == sv + '.initial' and r0 in ('self._states', 'self._states.keys()', 'self.states'):
+            return 'EXISTS'
+        if op == 'in' and l0 == sv + '.initial' and r0 in ('self.children_for(%s)' % nm, 'self.children_for(%s.name)' % sv, 'self._children[%s]' % nm):
+            return 'IS_CHILD'
+        return None
+    table(vi, classify_i, lambda v: v.get('COMPOUND') and v.get('HAS_INITIAL') and not (v.get('EXISTS') and v.get('IS_CHILD')), ('COMPOUND', 'HAS_INITIAL', 'EXISTS', 'IS_CHILD'),
+          'a compound state is rejected iff it declares an initial state that does not exist or is not one of its children',
+          'the rejection condition of the initial-state validator differs')
     mi = run.fn('Statechart._validate_historystate_memory')
     M = mi.node
-    lp = [n for n in q.walk(M, False) if isinstance(n, ast.For)]
-    run.anchor(len(lp) == 1 and '_states' in q.unparse(lp[0].iter), r, 'loop over all states in _validate_historystate_memory')
-    run.check(not any(isinstance(x, (ast.Break, ast.Return)) for x in ast.walk(lp[0])), r, mi.short, 'every state is examined', 'the loop can stop early', lp[0])
-    nm, sv = [e.id for e in lp[0].target.elts] if isinstance(lp[0].target, ast.Tuple) else (None, lp[0].target.id)
-    rz = [x for x in q.raises_in(M) if q.raised_class(x) == 'StatechartError']
-    conds = [(x, guard_atoms(x, stop=lp[0])) for x in rz]
-
+    L1 = [n for n in q.walk(M, False) if isinstance(n, ast.For)]
+    run.anchor(len(L1) == 1, r, 'loop over all states in _validate_historystate_memory')
+    nm, sv = [e.id for e in L1[0].target.elts] if isinstance(L1[0].target, ast.Tuple) else (None, L1[0].target.id)
     aliases = {sv + '.memory'} | {st.targets[0].id for st in q.walk(M, False) if isinstance(st, ast.Assign) and isinstance(st.targets[0], ast.Name)
                                    and q.unparse(st.value) == sv + '.memory'}
 
-    def mem(s):
-        return s in aliases
-    selfc = [x for x, c in conds if any(a[0] == '==' and ((mem(a[1]) and a[2] in (nm, sv + '.name')) or (mem(a[2]) and a[1] in (nm, sv + '.name'))) for a in c)]
-    exist = [x for x, c in conds if any(a[0] == 'not in' and mem(a[1]) and a[2] == 'self._states' for a in c)]
-    sib = [x for x, c in conds if any(a[0] == 'not in' and mem(a[1]) and 'children_for' in a[2] and 'parent_for' in a[2] for a in c)]
-    run.check(len(selfc) == 1, r, mi.short, 'memory must not be the history state itself', 'missing test', M)
-    run.check(len(exist) == 1, r, mi.short, 'memory must exist', 'missing test', M)
-    run.check(len(sib) == 1, r, mi.short, 'memory must be a sibling (child of the parent)', 'missing test', M)
-    for x, c in conds:
-        if x in sib:
-            a = [a for a in c if a[0] == 'not in' and 'children_for' in a[2]][0]
-            run.check(a[2].replace(' ', '') in ('self.children_for(self.parent_for(%s))' % nm, 'self.children_for(self.parent_for(%s.name))' % sv), r, mi.short,
-                      "children of the history state's own parent", 'compared with %s' % a[2], x)
-        extra = [a for a in c if not (a[0] == 'truthy' and 'HistoryStateMixin' in a[1]) and not mem(a[1]) and not mem(a[2])]
-        run.check(not extra, r, mi.short, 'memory tests apply to every history state with a memory', 'conditional on %s' % extra, x)
+    def classify_m(op, l, r_, e):
+        l0, r0 = l.replace(' ', ''), r_.replace(' ', '')
+        if op == 'truthy' and l0 == 'isinstance(%s,HistoryStateMixin)' % sv:
+            return 'HISTORY'
+        if op == 'is' and l0 in aliases and r0 == 'None':
+            return ('HAS_MEMORY', False)
+        if op == 'truthy' and l0 in aliases:
+            return 'HAS_MEMORY'
+        if op == '==' and ((l0 in aliases and r0 in (nm, sv + '.name')) or (r0 in aliases and l0 in (nm, sv + '.name'))):
+            return 'IS_SELF'
+        if op == 'in' and l0 in aliases and r0 in ('self._states', 'self._states.keys()', 'self.states'):
+            return 'EXISTS'
+        if op == 'in' and l0 in aliases and r0 in ('self.children_for(self.parent_for(%s))' % nm, 'self.children_for(self.parent_for(%s.name))' % sv,
+                                                   'self._children[self._parent[%s]]' % nm):
+            return 'IS_SIBLING'
+        return None
+    table(mi, classify_m, lambda v: v.get('HISTORY') and v.get('HAS_MEMORY') and (v.get('IS_SELF') or not v.get('EXISTS') or not v.get('IS_SIBLING')),
+          ('HISTORY', 'HAS_MEMORY', 'IS_SELF', 'EXISTS', 'IS_SIBLING'),
+          'a history state is rejected iff its memory is itself, does not exist or is not a child of its own parent',
+          'the rejection condition of the memory validator differs')
     va = run.fn('Statechart.validate')
     calls = [dotted(c.func) for c in q.calls(va.node)]
     for sub in ('self._validate_compoundstate_initial', 'self._validate_historystate_memory'):
@@ -240,6 +307,15 @@ def check(run):
             loops = [q.enclosing(c, ast.For) for c in regs]
             run.check(len(regs) == 1 and loops[0] is not None and dotted(strip_cast(loops[0].iter)) == lst and not guards(regs[0]), r, ii.short,
                       'every collected object is registered through %s' % reg.split('.')[1], 'registration loop differs', I)
+    # the transitions of every state of the document are imported: the loop over <state dict>.get('transitions') is not skipped for any state
+    tl = [n for n in q.walk(I, False) if isinstance(n, ast.For) and "'transitions'" in q.unparse(n.iter) and N['sdata'] in q.unparse(n.iter)]
+    run.check(len(tl) == 1, r, ii.short, "one loop over the 'transitions' of a state", 'found %d' % len(tl), I)
+    for t_ in tl:
+        outer = q.enclosing(t_, (ast.While, ast.For))
+        gs = [g for g in guards(t_, stop=outer)]
+        run.check(not gs, r, ii.short, 'transitions are imported for every state of the document',
+                  'the transitions of some states are skipped (%s): a transition declared on a state that cannot own one is dropped instead of being rejected' %
+                  [q.unparse(g[0])[:50] for g in gs], t_)
     # children are pushed for both composite kinds
     for key, klass in (('states', 'CompoundState'), ('parallel states', 'OrthogonalState')):
         ok_ = False
@@ -252,10 +328,13 @@ def check(run):
                 if not (isinstance(itv, ast.Subscript) and q.unparse(itv.value) == N['sdata']):
                     continue
                 # the key: a constant, or a local chosen per kind of composite state
-                for kv, kst in q.alternatives(I, itv.slice):
+                alts_ = [(kv, guard_atoms(kst if kst is not None else node)) for kv, kst in q.alternatives(I, itv.slice)]
+                if len(alts_) == 1 and q.const_str(alts_[0][0]) is None:
+                    alts_ = [(kv, k_at + guard_atoms(node)) for kv, k_at in q.cases(I, itv.slice)]      # a conditional expression as key
+                for kv, k_ats in alts_:
                     if q.const_str(kv) != key:
                         continue
-                    ats = it_at + guard_atoms(kst if kst is not None else node)
+                    ats = it_at + k_ats
                     if any(klass in a[1] and a[0] == 'truthy' and a[1].startswith('isinstance(') for a in ats) and not conds:
                         ok_ = True
         run.check(ok_, r, ii.short, "children under '%s' are imported for %s" % (key, klass), 'children not traversed', I)
